@@ -17,7 +17,9 @@ func byteOf(x string, shift uint) string { // (x >> shift) & 0xff
 }
 
 func (ex *Exec) byteKey() (string, string) {
-	return "E|" + typeKey(types.Typ[types.Byte]) + "|", heapKeySort("E", sInt, "")
+	k := "E|" + typeKey(types.Typ[types.Byte]) + "|"
+	intLeafRange[k] = [2]string{"0", "255"}
+	return k, heapKeySort("E", sInt, "")
 }
 
 // beN reads n big-endian bytes starting at relative index i of slice s.
